@@ -130,6 +130,8 @@ Step ==
           /\ \A k \in K : Active(k) => Tiny(AdamG(k))
           /\ \A k \in K : Active(k) => Small(AdamM2(k)) /\ Small(AdamM1(k))
           /\ \A k \in K : Active(k) => AdamRootsOK(k)
+          \* (eps = 0 with a zero second moment is 0/0: outside the update rule)
+          /\ \A k \in K : Active(k) => \A e \in E : QAdd(QSqrt(AdamVhat(k)[e])[2], H.eps)[1] # 0
           /\ \A k \in K : Active(k) => Small(AdamNew(k))
           /\ p' = [k \in K |-> IF Active(k) THEN AdamNew(k) ELSE p[k]]
           /\ m1' = [k \in K |-> IF Active(k) THEN <<AdamM1(k)>> ELSE m1[k]]
